@@ -235,6 +235,25 @@ def bit_or(interp, a, b):
             seen.add(k)
             if ctx.valid(z3.And(zi(y) >= 0, zi(y) < (1 << k), zi(x) % (1 << k) == 0)):
                 return add(x, y)
+    # partial overlap: x is a multiple of 2^k and 0 <= y < 2^(k+2): split y = yh*2^k + yl; then
+    # x | y = ((x >> k) | yh) * 2^k + yl, and (x >> k) | c = (x >> k) + c - ((x >> k) & c) for each of the <= 4 values c of yh
+    for x, y in ((a, b), (b, a)):
+        _, _, tx = bounds(x)
+        ly, hy, _ = bounds(y)
+        if 0 < tx < 4000 and ly is not None and hy is not None and ly >= 0 and hy < (1 << (tx + 2)) and isinstance(x, SInt) \
+                and x.lo is not None and x.lo >= 0:
+            k = tx
+            xs = floordiv_const(x, 1 << k)
+            yh = floordiv_const(y, 1 << k)
+            yl = mod_const(y, 1 << k)
+            top = (hy >> k)
+            r = None
+            for c in range(top, -1, -1):
+                val = zi(sub(add(xs, c), and_const(xs, c))) if c else zi(xs)
+                r = val if r is None else z3.If(zi(yh) == c, val, r)
+            hi_x = None if x.hi is None else ((x.hi >> k) | top)
+            res = mk(r, 0, hi_x, 0)
+            return add(mul(res, 1 << k), yl)
     return _bv_binop(interp, a, b, lambda p, q: p | q, "or")
 
 
